@@ -344,7 +344,8 @@ pub fn check(scn: &dyn Scenario, opts: &CheckOpts) -> i32 {
         if !seen_classes.insert(f.class.clone()) {
             continue;
         }
-        let (plan, tape, detail, digest) = if nondeterministic {
+        eprintln!("found class={} run={} tape_len={} detail={}; minimising", f.class, f.index, f.tape.len(), f.detail.chars().take(300).collect::<String>());
+        let (plan, tape, detail, digest) = if nondeterministic || std::env::var("VERIF_NO_MINIMISE").is_ok() {
             (f.plan.clone(), f.tape.clone(), f.detail.clone(), f.digest)
         } else {
             minimise(scn, &f.plan, &f.tape, &f.class, &f.detail, f.digest)
@@ -556,12 +557,22 @@ fn minimise(scn: &dyn Scenario, plan: &Value, tape: &[u32], class: &str, detail:
     let mut best_tape = tape.to_vec();
     let mut best_detail = detail.to_string();
     let mut best_digest = digest;
+    // a candidate may cost at most a few times what the original run cost (zeroed tapes can mean byte-sized I/O)
+    let t_orig = Instant::now();
+    let _ = scn.run(plan, Tape::replay(tape.to_vec()), false);
+    let per_run = (t_orig.elapsed() * 4).max(Duration::from_millis(200));
+    if t_orig.elapsed() > Duration::from_secs(5) {
+        budget = 30;
+    }
+    let spent = |budget: u32| budget == 0 || t0.elapsed() > Duration::from_secs(60);
     let test = |p: &Value, t: &[u32], budget: &mut u32| -> Option<(String, u64, usize)> {
         if *budget == 0 || t0.elapsed() > Duration::from_secs(60) {
             return None;
         }
         *budget -= 1;
+        crate::core::WALL_LIMIT.with(|c| c.set(Some(Instant::now() + per_run)));
         let out = scn.run(p, Tape::replay(t.to_vec()), false);
+        crate::core::WALL_LIMIT.with(|c| c.set(None));
         out.violations.iter().find(|(c, _)| c == class).map(|(_, d)| (d.clone(), out.digest, out.tape.len().max(0)))
     };
     // The original must reproduce in replay mode at all.
@@ -573,7 +584,7 @@ fn minimise(scn: &dyn Scenario, plan: &Value, tape: &[u32], class: &str, detail:
         None => return (best_plan, best_tape, best_detail, best_digest),
     }
     let mut progress = true;
-    while progress && budget > 0 {
+    while progress && !spent(budget) {
         progress = false;
         // 1. drop array elements (largest chunks first)
         let mut arrays = Vec::new();
@@ -608,7 +619,7 @@ fn minimise(scn: &dyn Scenario, plan: &Value, tape: &[u32], class: &str, detail:
                     } else {
                         start += chunk;
                     }
-                    if budget == 0 {
+                    if spent(budget) {
                         break;
                     }
                 }
@@ -628,6 +639,9 @@ fn minimise(scn: &dyn Scenario, plan: &Value, tape: &[u32], class: &str, detail:
                 _ => None,
             };
             let Some(cur) = cur else { continue };
+            if spent(budget) {
+                break;
+            }
             for cand_v in [0u64, 1, cur / 2, cur.saturating_sub(1)] {
                 if cand_v >= cur {
                     continue;
@@ -647,7 +661,7 @@ fn minimise(scn: &dyn Scenario, plan: &Value, tape: &[u32], class: &str, detail:
         }
         // 3. tape: truncate, then zero chunks
         let mut n = best_tape.len();
-        while n > 0 {
+        while n > 0 && !spent(budget) {
             let cand: Vec<u32> = best_tape[..n / 2].to_vec();
             if let Some((d, g, _)) = test(&best_plan, &cand, &mut budget) {
                 best_tape = cand;
@@ -664,6 +678,9 @@ fn minimise(scn: &dyn Scenario, plan: &Value, tape: &[u32], class: &str, detail:
             let mut start = 0;
             while start < best_tape.len() {
                 let end = (start + chunk).min(best_tape.len());
+                if spent(budget) {
+                    break;
+                }
                 if best_tape[start..end].iter().any(|x| *x != 0) {
                     let mut cand = best_tape.clone();
                     for x in &mut cand[start..end] {
@@ -678,7 +695,7 @@ fn minimise(scn: &dyn Scenario, plan: &Value, tape: &[u32], class: &str, detail:
                 }
                 start = end;
             }
-            if chunk == 1 {
+            if chunk == 1 || spent(budget) {
                 break;
             }
             chunk /= 2;
@@ -689,9 +706,13 @@ fn minimise(scn: &dyn Scenario, plan: &Value, tape: &[u32], class: &str, detail:
     }
     // Final re-execution fixes the digest for the minimised pair.
     let out = scn.run(&best_plan, Tape::replay(best_tape.clone()), false);
-    if let Some((_, d)) = out.violations.iter().find(|(c, _)| c == class) {
-        best_detail = d.clone();
-        best_digest = out.digest;
+    match out.violations.iter().find(|(c, _)| c == class) {
+        Some((_, d)) => {
+            best_detail = d.clone();
+            best_digest = out.digest;
+        }
+        // an abandoned candidate must never stand in for the violation: fall back to the run as found
+        None => return (plan.clone(), tape.to_vec(), detail.to_string(), digest),
     }
     (best_plan, best_tape, best_detail, best_digest)
 }
